@@ -129,11 +129,12 @@ Definition store_of_block (b : block) : store :=
           (match block_proof b with Some p => [(b_h b, p)] | None => [] end)
           [b_h b] [b].
 
-(* policy of the state stored under the network policy key (baseLeveldb.loadNetworkPolicy) *)
-Definition store_policy (s : store) : option N :=
+(* baseLeveldb.loadNetworkPolicy: the policy of the state stored under the network policy key;
+   None = error ("not NetworkPolicy state"), Some None = no such state *)
+Definition load_policy (s : store) : option (option N) :=
   match lookupN key_pol (s_states s) with
-  | Some st => match st_kind st with SPol p => Some p | _ => None end
-  | None => None
+  | Some st => match st_kind st with SPol p => Some (Some p) | _ => None end
+  | None => Some None
   end.
 
 (* LeveldbPermanent = storage + basePermanent's in-memory last block map / last proof / policy *)
@@ -145,13 +146,18 @@ Record perm := mkPerm {
 
 Definition perm_empty : perm := mkPerm store_empty None None None.
 
-(* NewLeveldbPermanent: loadLastBlockMap, loadLastSuffrageProof (meta AND body, after the fix),
-   loadNetworkPolicy *)
-Definition perm_load (s : store) : perm :=
-  mkPerm s
-    (option_map (fun e => full (snd e)) (amax (s_maps s)))
-    (option_map (fun e => full (snd e)) (amax (s_proofs s)))
-    (store_policy s).
+(* NewLeveldbPermanent on an existing storage: loadLastBlockMap (greatest block map key),
+   loadLastSuffrageProof (greatest suffrage height key; meta AND body, after the fix), loadNetworkPolicy.
+   None = the constructor returns an error. *)
+Definition perm_load (s : store) : option perm :=
+  match load_policy s with
+  | None => None
+  | Some pol =>
+      Some (mkPerm s
+              (option_map (fun e => full (snd e)) (amax (s_maps s)))
+              (option_map (fun e => full (snd e)) (amax (s_proofs s)))
+              pol)
+  end.
 
 (* what mergeTempDatabaseFromLeveldb takes from the temp: its storage and in-memory fields *)
 Record temp := mkTemp {
